@@ -86,7 +86,9 @@ func below(p, anc string) bool { return p == anc || strings.HasPrefix(p, anc+"/"
 
 func loc(d gen.Deviation) string { return d.TargetMod + " " + d.Target }
 
-func stripped(c gen.C08Case) bool { return len(c.DevTexts) > 0 && len(c.StrippedDevTexts) == len(c.DevTexts) }
+func stripped(c gen.C08Case) bool {
+	return len(c.DevTexts) > 0 && len(c.StrippedDevTexts) == len(c.DevTexts)
+}
 
 func cases(c gen.C08Case) (with, without rescorr.Case) {
 	without = rescorr.Case{Names: c.BaseNames, Texts: c.BaseTexts, IgnoreNotSupported: c.IgnoreNS}
@@ -437,25 +439,94 @@ func parseSpec(a string) (specAns, bool) {
 }
 
 type stats struct {
-	noModel, fromPath                                                                                            int64
+	noModel, fromPath                                                                                               int64
 	evaluated, clean, reportedAsClaimed, unclaimedReported, unclaimedApplied, baseErr, outside, parse, badTypeCases int64
-	targets, framed                                                                                              int64
-	notInBase                                                                                                    int64
-	nearProposed, nearNames, nearReported                                                                        int64
-	nearMissing                                                                                                  map[string]int
-	baseErrClass, claimedWhy                                                                                     map[string]int
-	combos                                                                                                       map[string]bool
-	distinct                                                                                                     *lib.Distinct
+	targets, framed                                                                                                 int64
+	notInBase                                                                                                       int64
+	nearProposed, nearNames, nearReported                                                                           int64
+	nearMissing                                                                                                     map[string]int
+	baseErrClass, claimedWhy                                                                                        map[string]int
+	combos                                                                                                          map[string]bool
+	histCases, histDiffer                                                                                           int64
+	histRuns                                                                                                        map[string]int
+	distinct                                                                                                        *lib.Distinct
 }
 
+// unit is one (run with the deviating modules, run without them) pair to be judged: the ordinary run of
+// a case, the run of the same texts under the toggled option (cases with Hist), or — only when it
+// differs from the fresh run it must equal — the last step of a history on one Modules value.
+type unit struct {
+	it      gen.C08Case // IgnoreNS = the option in force at the (last) Process of ow
+	orig    gen.C08Case // the case as generated (replay)
+	ow, owo rescorr.Outcome
+	hist    *histDef
+	fresh   []string // history units: the dump of the fresh run that the history's last step must equal
+}
+
+func withHistory(it gen.C08Case) bool { return it.Hist && len(it.PathRoots) == 0 }
+
 // evaluate runs the items and records every disagreement in res.
-func evaluate(items []gen.C08Case, f *lib.Flags, res *lib.Result, st *stats, verbose bool) {
+func evaluate(cases0 []gen.C08Case, f *lib.Flags, res *lib.Result, st *stats, verbose bool) {
 	var cs []rescorr.Case
-	for _, it := range items {
+	type cidx struct{ w, wo, wb int }
+	cix := make([]cidx, len(cases0))
+	for i, it := range cases0 {
 		w, wo := cases(it)
+		cix[i] = cidx{len(cs), len(cs) + 1, -1}
+		if withHistory(it) {
+			w.Extra = map[string]string{"hist": "1", "hist_split": fmt.Sprint(len(it.BaseNames))}
+			wb := w
+			wb.Extra = nil
+			wb.IgnoreNotSupported = !w.IgnoreNotSupported
+			cix[i].wb = len(cs) + 2
+			cs = append(cs, w, wo, wb)
+			continue
+		}
 		cs = append(cs, w, wo)
 	}
 	outs := rescorr.RunAll(cs, f)
+	usable := func(o rescorr.Outcome) bool { return !o.Crashed && o.Skipped == "" }
+	var items []unit
+	for i, it := range cases0 {
+		ow, owo := outs[cix[i].w], outs[cix[i].wo]
+		items = append(items, unit{it: it, orig: it, ow: ow, owo: owo})
+		if cix[i].wb < 0 {
+			continue
+		}
+		// the same texts under the toggled option: an ordinary run of its own
+		itB := it
+		itB.IgnoreNS = !it.IgnoreNS
+		itB.Label += " [IgnoreDeviateNotSupported toggled]"
+		itB.Combo = ""
+		owb := outs[cix[i].wb]
+		items = append(items, unit{it: itB, orig: it, ow: owb, owo: owo})
+		if !usable(ow) {
+			continue
+		}
+		st.histCases++
+		for k := range histories {
+			h := &histories[k]
+			got, ran := histDump(ow, h.id)
+			if !ran {
+				continue
+			}
+			want, uit := ow, it
+			if h.toggled {
+				want, uit = owb, itB
+			}
+			if !usable(want) {
+				continue
+			}
+			st.histRuns[h.id]++
+			if sameDump(got, want.Go.Dump) {
+				continue
+			}
+			st.histDiffer++
+			hw := want
+			hw.Go.Dump = got
+			items = append(items, unit{it: uit, orig: it, ow: hw, owo: owo, hist: h, fresh: want.Go.Dump})
+		}
+	}
 	specDrv := filepath.Join(filepath.Dir(f.Driver), "drv_dev")
 	plans := make([]*plan, len(items))
 	bases := make([]map[string]rec, len(items))
@@ -467,8 +538,8 @@ func evaluate(items []gen.C08Case, f *lib.Flags, res *lib.Result, st *stats, ver
 		type tref struct{ item, dev int }
 		var treqs []string
 		var trefs []tref
-		for i, it := range items {
-			ow, owo := outs[2*i], outs[2*i+1]
+		for i, u := range items {
+			it, ow, owo := u.it, u.ow, u.owo
 			if ow.Crashed || owo.Crashed || ow.Skipped != "" || owo.Skipped != "" || rescorr.HasErrors(owo.Go.Dump) {
 				continue
 			}
@@ -485,7 +556,7 @@ func evaluate(items []gen.C08Case, f *lib.Flags, res *lib.Result, st *stats, ver
 			lib.Fatal("spec driver %s: %v", specDrv, err)
 		}
 		for j, tr := range trefs {
-			it := items[tr.item]
+			it := items[tr.item].it
 			if adj[tr.item] == nil {
 				adj[tr.item] = append([]gen.Deviation{}, it.Devs...)
 			}
@@ -503,15 +574,15 @@ func evaluate(items []gen.C08Case, f *lib.Flags, res *lib.Result, st *stats, ver
 				st.nearMissing[d.Near]++
 			default:
 				res.AddDisagreement(lib.Disagreement{Kind: "obligation", Input: it, Go: treqs[j], Model: a, SpecVerdict: "",
-					What: "spec driver did not answer a spec.target request", Replay: it})
+					What: "spec driver did not answer a spec.target request", Replay: items[tr.item].orig})
 			}
 			if verbose {
 				fmt.Printf("spec.target %s in %s (%s left out) -> %s\n", d.Arg, d.TargetMod, d.Near, tans[j])
 			}
 		}
 	}
-	for i, it := range items {
-		ow, owo := outs[2*i], outs[2*i+1]
+	for i, u := range items {
+		it, ow, owo := u.it, u.ow, u.owo
 		if ow.Crashed || owo.Crashed || ow.Skipped != "" || owo.Skipped != "" || rescorr.HasErrors(owo.Go.Dump) {
 			continue
 		}
@@ -569,11 +640,13 @@ func evaluate(items []gen.C08Case, f *lib.Flags, res *lib.Result, st *stats, ver
 		missMemo[q] = a
 		return a
 	}
-	for i, it := range items {
-		ow, owo := outs[2*i], outs[2*i+1]
-		st.evaluated++
-		if len(it.PathRoots) > 0 {
-			st.fromPath++
+	evalUnit := func(i int, u unit, add func(lib.Disagreement)) {
+		it, ow, owo := u.it, u.ow, u.owo
+		if u.hist == nil {
+			st.evaluated++
+			if len(it.PathRoots) > 0 {
+				st.fromPath++
+			}
 		}
 		if verbose {
 			for k := range it.DevNames {
@@ -585,16 +658,19 @@ func evaluate(items []gen.C08Case, f *lib.Flags, res *lib.Result, st *stats, ver
 		}
 		if ow.Crashed || owo.Crashed {
 			msg := ow.CrashMsg + owo.CrashMsg
-			res.AddDisagreement(lib.Disagreement{Kind: "crash", Input: it, Go: msg, SpecVerdict: "violates",
-				What: "goyang crashed or hung: " + firstLine(msg), Replay: it})
-			continue
+			add(lib.Disagreement{Kind: "crash", Input: it, Go: msg, SpecVerdict: "violates",
+				What: "goyang crashed or hung: " + firstLine(msg), Replay: u.orig})
+			return
 		}
 		if ow.Skipped != "" || owo.Skipped != "" {
 			st.parse++
-			continue
+			return
 		}
 		// (i) model = Go, on both runs
 		for k, o := range []rescorr.Outcome{ow, owo} {
+			if u.hist != nil {
+				break // both fresh runs were compared with the model as units of their own
+			}
 			if o.Outside != "" {
 				st.outside++
 				continue
@@ -615,8 +691,8 @@ func evaluate(items []gen.C08Case, f *lib.Flags, res *lib.Result, st *stats, ver
 				}
 			}
 			if d := rescorr.Diff(g, m); d != "" {
-				res.AddDisagreement(lib.Disagreement{Kind: "correspondence", Input: it, Go: g, Model: m, SpecVerdict: "",
-					What: "resolver differs from the model (" + []string{"with", "without"}[k] + " the deviating modules): " + d, Replay: it})
+				add(lib.Disagreement{Kind: "correspondence", Input: it, Go: g, Model: m, SpecVerdict: "",
+					What: "resolver differs from the model (" + []string{"with", "without"}[k] + " the deviating modules): " + d, Replay: u.orig})
 			}
 		}
 		if rescorr.HasErrors(owo.Go.Dump) {
@@ -624,7 +700,7 @@ func evaluate(items []gen.C08Case, f *lib.Flags, res *lib.Result, st *stats, ver
 			if f := strings.Split(owo.Go.Dump[0], ":"); len(f) > 0 {
 				st.baseErrClass[f[len(f)-1]]++
 			}
-			continue
+			return
 		}
 		p := plans[i]
 		base := bases[i]
@@ -636,8 +712,8 @@ func evaluate(items []gen.C08Case, f *lib.Flags, res *lib.Result, st *stats, ver
 		for _, t := range p.order {
 			a, ok := parseSpec(ans[p.reqIdx[t]])
 			if !ok {
-				res.AddDisagreement(lib.Disagreement{Kind: "obligation", Input: it, Go: reqs[p.reqIdx[t]], Model: ans[p.reqIdx[t]], SpecVerdict: "",
-					What: "spec driver did not answer a spec.deviate request", Replay: it})
+				add(lib.Disagreement{Kind: "obligation", Input: it, Go: reqs[p.reqIdx[t]], Model: ans[p.reqIdx[t]], SpecVerdict: "",
+					What: "spec driver did not answer a spec.deviate request", Replay: u.orig})
 				bad = true
 				continue
 			}
@@ -656,7 +732,7 @@ func evaluate(items []gen.C08Case, f *lib.Flags, res *lib.Result, st *stats, ver
 			}
 		}
 		if bad {
-			continue
+			return
 		}
 		for _, m := range p.missing {
 			claimed = append(claimed, "no target: "+m)
@@ -693,22 +769,22 @@ func evaluate(items []gen.C08Case, f *lib.Flags, res *lib.Result, st *stats, ver
 			if strings.HasPrefix(v, "violates") {
 				verdict = "violates"
 			}
-			res.AddDisagreement(lib.Disagreement{Kind: "spec", Input: it, Go: lib.Project(ow.Go.Dump, keys, true),
-				Model: map[string]any{"must_be_reported": claimed, "changed_although_untargeted": ch, "spec.missing": v},
-				SpecVerdict: verdict, What: what, Replay: it})
-			continue
+			add(lib.Disagreement{Kind: "spec", Input: it, Go: lib.Project(ow.Go.Dump, keys, true),
+				Model:       map[string]any{"must_be_reported": claimed, "changed_although_untargeted": ch, "spec.missing": v},
+				SpecVerdict: verdict, What: what, Replay: u.orig})
+			return
 		case len(claimed) > 0 && !goErr:
-			res.AddDisagreement(lib.Disagreement{Kind: "spec", Input: it, Go: lib.Project(ow.Go.Dump, keys, true), Model: claimed,
-				SpecVerdict: "violates", What: "a deviation that cannot be applied was not reported: " + claimed[0], Replay: it})
-			continue
+			add(lib.Disagreement{Kind: "spec", Input: it, Go: lib.Project(ow.Go.Dump, keys, true), Model: claimed,
+				SpecVerdict: "violates", What: "a deviation that cannot be applied was not reported: " + claimed[0], Replay: u.orig})
+			return
 		case len(p.missing) > 0 && stageReached && !cls["deviate-no-target"]:
 			// errors were returned, the deviation stage was reached (some error is of a class only that
 			// stage produces), and yet none of them is about the missing target
-			res.AddDisagreement(lib.Disagreement{Kind: "spec", Input: it, Go: lib.Project(ow.Go.Dump, keys, true),
-				Model: map[string]any{"must_be_reported": claimed, "spec.missing": askMissing(false, 0)},
+			add(lib.Disagreement{Kind: "spec", Input: it, Go: lib.Project(ow.Go.Dump, keys, true),
+				Model:       map[string]any{"must_be_reported": claimed, "spec.missing": askMissing(false, 0)},
 				SpecVerdict: "violates", What: "a deviation that names no schema node was not reported as such (RFC 7950 6.5: each step names a direct child, choice/case too), " +
-					"the errors of the deviation stage are only " + strings.Join(lib.SortedKeys(cls), ",") + ": " + p.missing[0], Replay: it})
-			continue
+					"the errors of the deviation stage are only " + strings.Join(lib.SortedKeys(cls), ",") + ": " + p.missing[0], Replay: u.orig})
+			return
 		case len(claimed) > 0:
 			if len(p.missing) > 0 && askMissing(true, 0) != "holds" {
 				lib.Fatal("spec.missing 1 0 is not `holds`")
@@ -735,7 +811,7 @@ func evaluate(items []gen.C08Case, f *lib.Flags, res *lib.Result, st *stats, ver
 			if it.Combo != "" {
 				st.combos[it.Combo] = true
 			}
-			continue
+			return
 		case goErr && len(unclaimed) > 0:
 			// invalid by the RFC for a reason the property does not promise a report for; the library
 			// may report it anyway (e.g. a second not-supported)
@@ -743,11 +819,11 @@ func evaluate(items []gen.C08Case, f *lib.Flags, res *lib.Result, st *stats, ver
 			if it.Combo != "" {
 				st.combos[it.Combo] = true
 			}
-			continue
+			return
 		case goErr:
-			res.AddDisagreement(lib.Disagreement{Kind: "spec", Input: it, Go: lib.Project(ow.Go.Dump, keys, true), Model: "no condition of RFC 7950 7.20.3 is broken",
-				SpecVerdict: "violates", What: "deviations the RFC allows were refused: " + firstErr(ow.Go.Dump), Replay: it})
-			continue
+			add(lib.Disagreement{Kind: "spec", Input: it, Go: lib.Project(ow.Go.Dump, keys, true), Model: "no condition of RFC 7950 7.20.3 is broken",
+				SpecVerdict: "violates", What: "deviations the RFC allows were refused: " + firstErr(ow.Go.Dump), Replay: u.orig})
+			return
 		}
 		// no errors: frame and targets
 		with := index(ow.Go.Dump)
@@ -782,14 +858,14 @@ func evaluate(items []gen.C08Case, f *lib.Flags, res *lib.Result, st *stats, ver
 			st.framed++
 			w, there := with[path]
 			if !there {
-				res.AddDisagreement(lib.Disagreement{Kind: "spec", Input: it, Go: "node " + path + " is missing from the run with the deviating modules",
-					SpecVerdict: "violates", What: "frame: a node that no deviation targets disappeared: " + path, Replay: it})
+				add(lib.Disagreement{Kind: "spec", Input: it, Go: "node " + path + " is missing from the run with the deviating modules",
+					SpecVerdict: "violates", What: "frame: a node that no deviation targets disappeared: " + path, Replay: u.orig})
 				ok = false
 				break
 			}
 			if a, b := w.proj(frameKeys), base[path].proj(frameKeys); a != b {
-				res.AddDisagreement(lib.Disagreement{Kind: "spec", Input: it, Go: map[string]string{"with": a, "without": b},
-					SpecVerdict: "violates", What: "frame: a node that no deviation targets changed: " + path, Replay: it})
+				add(lib.Disagreement{Kind: "spec", Input: it, Go: map[string]string{"with": a, "without": b},
+					SpecVerdict: "violates", What: "frame: a node that no deviation targets changed: " + path, Replay: u.orig})
 				ok = false
 				break
 			}
@@ -806,8 +882,8 @@ func evaluate(items []gen.C08Case, f *lib.Flags, res *lib.Result, st *stats, ver
 			if p.implicit[path] {
 				continue
 			}
-			res.AddDisagreement(lib.Disagreement{Kind: "spec", Input: it, Go: with[path].raw,
-				SpecVerdict: "violates", What: "frame: the run with the deviating modules has a node the base does not: " + path, Replay: it})
+			add(lib.Disagreement{Kind: "spec", Input: it, Go: with[path].raw,
+				SpecVerdict: "violates", What: "frame: the run with the deviating modules has a node the base does not: " + path, Replay: u.orig})
 			ok = false
 			break
 		}
@@ -839,8 +915,8 @@ func evaluate(items []gen.C08Case, f *lib.Flags, res *lib.Result, st *stats, ver
 				// whatever the base had below a removed node is gone, also when the node itself came back empty
 				for _, path := range wpaths {
 					if below(path, t) && (gone || path != t) {
-						res.AddDisagreement(lib.Disagreement{Kind: kind, Input: it, Go: with[path].raw, Model: "removed",
-							SpecVerdict: verdict, What: "not-supported did not remove " + path, Replay: it})
+						add(lib.Disagreement{Kind: kind, Input: it, Go: with[path].raw, Model: "removed",
+							SpecVerdict: verdict, What: "not-supported did not remove " + path, Replay: u.orig})
 						ok = false
 						break
 					}
@@ -851,8 +927,8 @@ func evaluate(items []gen.C08Case, f *lib.Flags, res *lib.Result, st *stats, ver
 			}
 			w, there := with[t]
 			if !there {
-				res.AddDisagreement(lib.Disagreement{Kind: kind, Input: it, Go: "absent", Model: a.f,
-					SpecVerdict: verdict, What: "target " + t + " is missing although no not-supported applies", Replay: it})
+				add(lib.Disagreement{Kind: kind, Input: it, Go: "absent", Model: a.f,
+					SpecVerdict: verdict, What: "target " + t + " is missing although no not-supported applies", Replay: u.orig})
 				ok = false
 				continue
 			}
@@ -870,8 +946,8 @@ func evaluate(items []gen.C08Case, f *lib.Flags, res *lib.Result, st *stats, ver
 			}
 			wr := rec{f: want}
 			if x, y := w.proj(frameKeys), wr.proj(frameKeys); x != y {
-				res.AddDisagreement(lib.Disagreement{Kind: kind, Input: it, Go: x, Model: y,
-					SpecVerdict: verdict, What: fmt.Sprintf("target %s is not what RFC 7950 7.20.3 prescribes (without: %s)", t, b.proj(frameKeys)), Replay: it})
+				add(lib.Disagreement{Kind: kind, Input: it, Go: x, Model: y,
+					SpecVerdict: verdict, What: fmt.Sprintf("target %s is not what RFC 7950 7.20.3 prescribes (without: %s)", t, b.proj(frameKeys)), Replay: u.orig})
 				ok = false
 			}
 		}
@@ -885,6 +961,35 @@ func evaluate(items []gen.C08Case, f *lib.Flags, res *lib.Result, st *stats, ver
 			if it.Combo != "" {
 				st.combos[it.Combo] = true
 			}
+		}
+	}
+	for i, u := range items {
+		if u.hist == nil {
+			evalUnit(i, u, res.AddDisagreement)
+			continue
+		}
+		// the last step of a history left something else behind than a fresh Modules value under the
+		// options then in force: judged like the outcome of a run under those options
+		opt := "default options"
+		if u.it.IgnoreNS {
+			opt = "IgnoreDeviateNotSupported set"
+		}
+		pre := fmt.Sprintf("history on one Modules value [%s: %s]: the outcome differs from that of a fresh Modules value under the options in force at the last step (%s); ",
+			u.hist.id, u.hist.desc, opt)
+		n := 0
+		evalUnit(i, u, func(d lib.Disagreement) {
+			n++
+			d.What = pre + d.What
+			d.Input = map[string]any{"case": u.orig, "history": u.hist.id, "steps": u.hist.desc, "options_at_last_step": opt}
+			res.AddDisagreement(d)
+		})
+		if n == 0 {
+			// no clause of the property is broken by the dump itself (e.g. only records of the deviating
+			// modules, derived fields, or the errors of a base that does not process differ)
+			res.AddDisagreement(lib.Disagreement{Kind: "correspondence",
+				Input: map[string]any{"case": u.orig, "history": u.hist.id, "steps": u.hist.desc, "options_at_last_step": opt},
+				Go:    u.ow.Go.Dump, Model: u.fresh, SpecVerdict: "",
+				What: pre + "first difference (history | fresh): " + strings.Replace(rescorr.Diff(u.ow.Go.Dump, u.fresh), "| model:", "| fresh:", 1), Replay: u.orig})
 		}
 	}
 }
@@ -906,11 +1011,11 @@ func firstLine(s string) string {
 func main() {
 	f := lib.ParseFlags()
 	if lib.IsChild() {
-		rescorr.ServeChild(nil)
+		rescorr.ServeChild(histHook)
 		return
 	}
 	st := &stats{combos: map[string]bool{}, distinct: lib.NewDistinct(), baseErrClass: map[string]int{}, claimedWhy: map[string]int{},
-		nearMissing: map[string]int{}}
+		nearMissing: map[string]int{}, histRuns: map[string]int{}}
 	if f.Replay != "" {
 		raw, err := os.ReadFile(f.Replay)
 		if err != nil {
@@ -948,6 +1053,13 @@ func main() {
 			}
 		}
 	}
+	// histories on one Modules value (hist.go): every enumerated case with a not-supported statement and
+	// one in eight of the others (not the files-on-disk copies)
+	for i := range items {
+		if len(items[i].PathRoots) == 0 && (items[i].HasNotSupported() || i%8 == 3) {
+			items[i].Hist = true
+		}
+	}
 	nEx := len(items)
 	n := 15000
 	if f.Thorough() {
@@ -957,6 +1069,10 @@ func main() {
 		c := gen.C08Random(f.Rand(i))
 		if i%6 == 4 {
 			c = gen.C08FromDisk(c, i/6%2)
+		}
+		// histories: one in three of the random sets with a not-supported statement, one in forty of the others
+		if len(c.PathRoots) == 0 && ((c.HasNotSupported() && i%3 == 0) || i%40 == 7) {
+			c.Hist = true
 		}
 		items = append(items, c)
 	}
@@ -986,6 +1102,10 @@ func main() {
 		"every way of leaving out choice / case / container steps, a case without its choice, a descendant as a child, x statements that would apply cleanly to the node a generous lookup reaches), " +
 		"unresolvable types, boundary bound values, every ordered pair of kinds on one property in one deviation / two deviations / two modules; random part: generated base sets " +
 		"(harness/gen without deliberate faults) with 1-2 deviating modules x 1-3 deviations x 1-3 deviate statements x 1-3 properties, 30% with the ignore option, one deviation in twenty (one in six of those through a choice or case) turned into a near miss (steps other than the last left out; spec.target on the Go dump of the without-run decides whether it names a node); " +
+		"histories: for every enumerated case with a not-supported statement (among them hand-written witnesses gen/c08hist.go), one in eight of the other enumerated cases, one in three of the random sets with a not-supported statement and one in forty of the others, " +
+		"the same texts are also run fresh under the toggled IgnoreDeviateNotSupported (an ordinary case of its own: model, frame, targets, errors), and on ONE Modules value: Process twice; option toggled with nothing loaded, Process; option back, GetModule; option toggled + StoreUses + a load, Process; " +
+		"a fresh value under the opposite of all three options: base loaded, Process, options changed, deviating modules loaded, Process; a fresh value: all loaded, Process under the opposite options, options changed, Process, toggled again, GetModule - the dump after each last step must be the dump of the fresh run under the options then in force, " +
+		"and a dump that is not is judged by the specification under those options like the dump of a run; " +
 		"distinct_nontrivial = distinct cases (combination name, or texts) whose base processes cleanly and on which the verdict was fully evaluated: " +
 		"either an error was demanded and reported, or frame and every target record were compared with the specification"
 	res.Exhaustive = false
@@ -1013,5 +1133,8 @@ func main() {
 	res.Distribution["near_miss_paths_that_name_another_node(ordinary target)"] = st.nearNames
 	res.Distribution["near_miss_paths_naming_no_node_by_spec.target"] = st.nearMissing
 	res.Distribution["cases_with_near_miss_reported"] = st.nearReported
+	res.Distribution["history_cases(also run fresh under the toggled option)"] = st.histCases
+	res.Distribution["history_last_steps_compared_with_the_fresh_run"] = st.histRuns
+	res.Distribution["history_last_steps_that_differ_from_the_fresh_run"] = st.histDiffer
 	res.Write(f.Out)
 }
